@@ -1,7 +1,9 @@
 """Liveness corpus (DESIGN 3.1 E5c / 10.6): every patch under /verif/mutants/<ID>/ and /verif/seeded/<ID>/*/patch.diff is applied to a
 scratch copy of /repo's current tree (under /tmp/qxm/live-<slot>, removed afterwards); the property's quick check must report a violation
 there — for own mutants one whose key contains the `# expect:` line of the patch.  A patch that no longer applies (or no longer compiles)
-is `skipped`.  The result is evidence about the checker; it never changes a property's verdict."""
+is `skipped`.  The behaviour-preserving refactorings under /verif/benign/<ID>/*/patch.diff are run the same way with the opposite expectation:
+the check must stay silent on them (`silent`, else `FALSE-ALARM`; obligations it leaves undecided there are counted).  The result is evidence
+about the checker; it never changes a property's verdict."""
 import concurrent.futures as cf
 import glob
 import os
@@ -25,6 +27,8 @@ def corpus(pid):
         out.append((pid, 'mutant', os.path.basename(p)[:-6], p, exp))
     for p in sorted(glob.glob('%s/seeded/%s/*/patch.diff' % (VERIF, pid))):
         out.append((pid, 'seeded', os.path.basename(os.path.dirname(p)), p, ''))
+    for p in sorted(glob.glob('%s/benign/%s/*/patch.diff' % (VERIF, pid))):
+        out.append((pid, 'benign', os.path.basename(os.path.dirname(p)), p, ''))
     return out
 
 
@@ -42,6 +46,10 @@ def _one(slot, item, tag):
     keys = re.findall(r'^  key    (.*)$', r.stdout, re.M)
     if 'does not build' in r.stdout:
         return dict(property=pid, kind=kind, name=name, status='skipped', why='the patched tree no longer compiles')
+    if kind == 'benign':
+        und = re.findall(r'^UNDECIDED property=\S+ (\S+)', r.stdout, re.M)
+        bad = bool(keys) or 'CHECK-ERROR' in r.stdout
+        return dict(property=pid, kind=kind, name=name, status='FALSE-ALARM' if bad else 'silent', keys=keys[:4], undecided=len(und), undecided_keys=und[:4])
     ok = bool(keys) and (not exp or any(exp in k for k in keys))
     return dict(property=pid, kind=kind, name=name, status='caught' if ok else 'MISSED', expect=exp, keys=keys[:4])
 
@@ -64,8 +72,11 @@ def run(ids, jobs=6, echo=None, tag=''):
         for r in ex.map(work, items):
             res.append(r)
             if echo:
-                echo('%-7s %s %s/%s %s' % (r['status'], r['property'], r['kind'], r['name'], r.get('why') or ', '.join(r.get('keys', [])[:2])))
+                echo('%-7s %s %s/%s %s' % (r['status'], r['property'], r['kind'], r['name'], r.get('why') or ', '.join(r.get('keys', [])[:2])
+                                           + (' [%d undecided: %s]' % (r['undecided'], ', '.join(r['undecided_keys'][:2])) if r.get('undecided') else '')))
     for s in range(jobs):
         shutil.rmtree('/tmp/qxm/live-%s%d' % (tag, s), ignore_errors=True)
     return dict(total=len(res), caught=sum(r['status'] == 'caught' for r in res), skipped=sum(r['status'] == 'skipped' for r in res),
-                missed=sum(r['status'] == 'MISSED' for r in res), seconds=round(time.time() - t0, 1), results=res)
+                missed=sum(r['status'] == 'MISSED' for r in res), silent=sum(r['status'] == 'silent' for r in res),
+                false_alarms=sum(r['status'] == 'FALSE-ALARM' for r in res), undecided_on_benign=sum(r.get('undecided', 0) for r in res if r['kind'] == 'benign'),
+                seconds=round(time.time() - t0, 1), results=res)
